@@ -454,13 +454,65 @@ func ruleRunDeliversAll(c *Ctx, run *ssa.Function, outputsF *types.Var) {
 	key := "utils.DynamicFanOut.run/delivers-to-every-output"
 	pos := c.P.Pos(run.Pos())
 	var rng *ssa.Range
-	for _, b := range run.Blocks {
-		for _, in := range b.Instrs {
-			if r, ok := in.(*ssa.Range); ok && derivesFromField(r.X, outputsF, map[ssa.Value]bool{}) {
-				rng = r
+	// the delivery loop may live in run itself or in a helper method run calls on every received element
+	var chain []*ssa.Call
+	host := run
+	for depth := 0; depth < 3 && rng == nil; depth++ {
+		for _, b := range host.Blocks {
+			for _, in := range b.Instrs {
+				if r, ok := in.(*ssa.Range); ok && derivesFromField(r.X, outputsF, map[ssa.Value]bool{}) {
+					rng = r
+				}
 			}
 		}
+		if rng != nil {
+			break
+		}
+		var next *ssa.Call
+		n := 0
+		for _, b := range host.Blocks {
+			for _, in := range b.Instrs {
+				if call, ok := in.(*ssa.Call); ok {
+					if callee := call.Call.StaticCallee(); callee != nil && c.P.OwnedFunc(callee) && callee.Blocks != nil {
+						next = call
+						n++
+					}
+				}
+			}
+		}
+		if n != 1 {
+			break
+		}
+		chain = append(chain, next)
+		host = next.Call.StaticCallee()
 	}
+	// every helper call on the way is executed for every received element (dominates the latch of its loop / every return)
+	for _, call := range chain {
+		okCall := true
+		fn := call.Parent()
+		for _, b := range fn.Blocks {
+			for _, p := range b.Preds {
+				if b.Dominates(p) && blockDominatesOrSame(b, call.Block()) && !blockDominatesOrSame(call.Block(), p) && reachesBlock(call.Block(), p) {
+					okCall = false
+				}
+			}
+		}
+		if fn != run {
+			for _, b := range fn.Blocks {
+				if b == fn.Recover {
+					continue
+				}
+				if _, isRet := b.Instrs[len(b.Instrs)-1].(*ssa.Return); isRet && !blockDominatesOrSame(call.Block(), b) {
+					okCall = false
+				}
+			}
+		}
+		if !okCall {
+			c.Bad("R15.3", key, c.P.Pos(call.Pos()), "the helper that delivers to the outputs is not called for every received element")
+			return
+		}
+	}
+	run = host
 	if rng == nil {
 		c.Bad("R15.3", key, pos, "run does not iterate over the output map")
 		return
